@@ -35,6 +35,16 @@ CHECKS = {
    text="TLC checks that Close returns only after the timeoutLoop has exited under every interleaving; on the real code TLStart/TLExit/CrStart/CrExit and CloseRet/CloseNowRet events of seeded executions (all closer kinds, CloseRead, abandoned writers) are validated: no library goroutine started before the call is alive when it returns.",
    note="Exit hooks are deferred so that they run before the done channels are closed (no false alarm from logging order). Schedules are sampled.",
    design="6/C20"),
+ "C06": dict(
+   technique="TLA+ decision table (spec/WSCloseRows.tla from WSBase!ValidWireCode/Sendable) evaluated by TLC over all status codes and reason lengths and replayed through the real Close and as incoming Close frames; WSConn model + TLC trace validation of concurrent executions for 'closed for good'",
+   text="TLC writes what Close(code, reason) must emit/return for every code -1..65536 (and 2^31-1) and boundary reason lengths, and how every 16-bit code must be reported when received; the harness replays all ~197k rows in both roles against a raw peer (echoing, answering another code, silent). Seeded concurrent executions are trace-validated (TraceConn.tla) and probed after closing: every Read/Write/Ping fails, later Close/CloseNow match net.ErrClosed.",
+   note="Exhaustive over codes; Close returning nil without a matching echo is recorded but not judged (the statement only fixes the echo case).",
+   design="6/C06"),
+ "C17": dict(
+   technique="TLA+ symbolic masking model (spec/WSMask.tla: reference pattern, rotation algebra, composition theorem, path model of maskGo's unrolled loops) checked by TLC; TLC-written table replayed into maskGo, mask() and the amd64 assembly over the full length x alignment grid",
+   text="TLC proves composability for all lengths <=24 and splits, checks the block decomposition of maskGo for every length 0..300 against the reference pattern, and writes the expected key-byte index pattern and returned rotation for every length 0..4200; the harness runs every length x alignment 0..63 x implementation with distinguishable key bytes, guard bytes and page-boundary placement and compares position by position.",
+   note="Byte-level XOR and out-of-bounds behaviour are observed (projection, guards, page faults), not derived by TLC; arm64 assembly is not executable here.",
+   design="6/C17"),
  "C03": dict(
    technique="TLA+ reference decoder (spec/WSRecv.tla) model-checked by TLC; TLC-generated behaviours (all frame streams up to a length bound) replayed into the real Conn and compared with the specification's predicted reaction",
    text="TLC checks the reference decoder automaton and enumerates every frame stream of <=3 (quick) / <=4 (thorough) letters over a 43-letter alphabet of valid and single-violation frames; each is serialised by an independent raw peer and fed to a real Conn in both roles, compression modes and transport chunkings; messages, Pongs, Close echo, failing read and absence of panics are compared with React/Run. Exhaustive within the alphabet and length bound.",
